@@ -7,12 +7,26 @@ From RV Require Import Base.
 
 Inductive dir := Fwd | Bwd.
 
+(* a v-mode class as written: operands, nested classes and the three operators.  A class escape or property escape
+   is its positive set with a negation mark (\D \W \S \P{..}), because under v+i the complement is taken after
+   simple case folding (CharacterComplement over the folded universe), not before. *)
+Inductive vexpr :=
+| VCh (c : N)
+| VRange (a b : N)
+| VEsc (neg : bool) (rs : list (N * N))
+| VStrs (strs : list (list N))                 (* \q{..|..} *)
+| VUnion (l : list vexpr)
+| VInter (l : list vexpr)
+| VSub (l : list vexpr)
+| VNeg (e : vexpr).                            (* [^ ... ] *)
+
 Inductive regex :=
 | REmpty
 | RChar (c : N) (icase : bool)
 | RAny (dotall : bool)
 | RClass (inv : bool) (rs : list (N * N)) (icase : bool)
 | RStrClass (strs : list (list N)) (rs : list (N * N)) (icase : bool)   (* v-mode class with \q strings *)
+| RVClass (e : vexpr) (icase : bool)                                   (* v-mode class expression *)
 | RSeq (a b : regex)
 | RAlt (a b : regex)
 | RGroup (gid : nat) (r : regex)
@@ -56,6 +70,62 @@ Section Sem.
     if icase then existsb (in_ranges rs) (eqclass ch) else in_ranges rs ch.
   Definition char_matches (c : N) (icase : bool) (ch : N) : bool :=
     if icase then canon c =? canon ch else c =? ch.
+
+  (* v-mode class expressions (ES2025 22.2.2.9 CompileToCharSet with UnicodeSets): under i every leaf is folded
+     (MaybeSimpleCaseFolding), the operators act on the folded sets, a complement is taken within the folded
+     universe, and a character matches when its canonical form is a member.  Stated on the character itself:
+     ch is in the folded leaf set iff some member of the leaf has the canonical form of ch. *)
+  Fixpoint list_N_eqb (a b : list N) : bool :=
+    match a, b with
+    | [], [] => true
+    | x :: a', y :: b' => (x =? y) && list_N_eqb a' b'
+    | _, _ => false
+    end.
+  Definition str_in (s : list N) (l : list (list N)) : bool := existsb (list_N_eqb s) l.
+  Definition cn (icase : bool) (c : N) : N := if icase then canon c else c.
+
+  Fixpoint vmem (icase : bool) (e : vexpr) (ch : N) : bool :=
+    match e with
+    | VCh c => char_matches c icase ch
+    | VRange a b => set_matches [(a, b)] icase ch
+    | VEsc neg rs => xorb neg (set_matches rs icase ch)
+    | VStrs strs => existsb (fun s => match s with [a] => char_matches a icase ch | _ => false end) strs
+    | VUnion l => (fix go (l : list vexpr) : bool := match l with [] => false | e :: t => vmem icase e ch || go t end) l
+    | VInter l =>
+        match l with
+        | [] => false
+        | _ => (fix go (l : list vexpr) : bool := match l with [] => true | e :: t => vmem icase e ch && go t end) l
+        end
+    | VSub l =>
+        match l with
+        | [] => false
+        | h :: t => vmem icase h ch &&
+                    negb ((fix go (l : list vexpr) : bool := match l with [] => false | e :: t => vmem icase e ch || go t end) t)
+        end
+    | VNeg e => negb (vmem icase e ch)
+    end.
+
+  (* the member strings that are not single characters, in canonical form *)
+  Fixpoint vstrs (icase : bool) (e : vexpr) : list (list N) :=
+    match e with
+    | VStrs strs => map (map (cn icase)) (filter (fun s => negb (length s =? 1)%nat) strs)
+    | VUnion l => (fix go (l : list vexpr) : list (list N) := match l with [] => [] | e :: t => vstrs icase e ++ go t end) l
+    | VInter l =>
+        match l with
+        | [] => []
+        | h :: t =>
+            filter (fun s => (fix go (l : list vexpr) : bool :=
+                                match l with [] => true | e :: t => str_in s (vstrs icase e) && go t end) t) (vstrs icase h)
+        end
+    | VSub l =>
+        match l with
+        | [] => []
+        | h :: t =>
+            filter (fun s => negb ((fix go (l : list vexpr) : bool :=
+                                      match l with [] => false | e :: t => str_in s (vstrs icase e) || go t end) t)) (vstrs icase h)
+        end
+    | _ => []
+    end.
 
   Definition peek (d : dir) (p : nat) : option (N * nat) :=
     match d with
@@ -120,6 +190,11 @@ Section Sem.
                 ++ one d x (fun c => set_matches rs ic c
                                      || existsb (fun s => match s with [a] => char_matches a ic c | _ => false end) strs)
                 ++ (if existsb (fun s => match s with [] => true | _ => false end) strs then [x] else []))
+      | RVClass e ic =>
+          let ss := vstrs ic e in
+          Some (flat_map (fun s => str_match d s ic x) (longest_first (filter (fun s => (1 <? length s)%nat) ss))
+                ++ one d x (vmem ic e)
+                ++ (if existsb (fun s => match s with [] => true | _ => false end) ss then [x] else []))
       | RSeq a b =>
           let '(r1, r2) := match d with Fwd => (a, b) | Bwd => (b, a) end in
           match es_results f r1 d x with Some l => obind (es_results f r2 d) l | None => None end
